@@ -4,4 +4,5 @@ pub mod fields_gen;
 pub mod instr_gen;
 pub mod smt;
 pub mod u256;
+pub mod vm_gen;
 pub mod vmstep;
